@@ -1,0 +1,3 @@
+// Package verifhook provides instrumentation points for external verification tooling. All functions are no-ops
+// unless the engine is built with the "verif" build tag.
+package verifhook
